@@ -47,13 +47,14 @@ func init() {
 		"strings.IndexRune": func(fr *frame, a []value) value {
 			return sumIndex(fr, []value{a[0], Str{R: []*Term{fr.m.sanitizeRune(a[1].(*Term))}}})
 		},
-		"strings.IndexByte": func(fr *frame, a []value) value {
-			b := fr.m.simplify(a[1].(*Term))
-			if !b.IsConst() || b.U >= 0x80 {
-				panic(unsupported("strings.IndexByte with a symbolic or non-ASCII byte"))
-			}
-			return sumIndex(fr, []value{a[0], Str{R: []*Term{mkBV(32, b.U)}}})
-		},
+		"strings.IndexByte":                 sumIndexByte,
+		"internal/bytealg.IndexByteString":  sumIndexByte,
+		"internal/stringslite.IndexByte":    sumIndexByte,
+		"internal/stringslite.Index":        sumIndex,
+		"internal/stringslite.HasPrefix":    sumHasPrefix,
+		"internal/stringslite.HasSuffix":    sumHasSuffix,
+		"internal/stringslite.TrimPrefix":   sumTrimPrefix,
+		"internal/stringslite.TrimSuffix":   sumTrimSuffix,
 		"strings.Join": func(fr *frame, a []value) value {
 			var out []*Term
 			opq := false
@@ -941,6 +942,25 @@ func sumIndex(fr *frame, a []value) value {
 			return off
 		}
 		off = c.Add(off, m.utf8Len(s.R[i]))
+	}
+	return mkInt(64, -1)
+}
+
+// IndexByte(s, c): byte-level search (forks on the encoded length of symbolic
+// runes and on each comparison).
+func sumIndexByte(fr *frame, a []value) value {
+	m := fr.m
+	s := a[0].(Str)
+	m.needConcreteStr(s, "strings.IndexByte")
+	b := m.simplify(a[1].(*Term))
+	if b.IsConst() && b.U < 0x80 {
+		return sumIndex(fr, []value{s, Str{R: []*Term{mkBV(32, b.U)}}})
+	}
+	bs := m.strBytes(s)
+	for i, x := range bs {
+		if m.branch(m.ctx.Eq(x, b)) {
+			return mkInt(64, int64(i))
+		}
 	}
 	return mkInt(64, -1)
 }
